@@ -587,6 +587,14 @@ type Clock interface {
 	Ctx(context Context, _ context.Context)
 }
 
+type Leak interface {
+	Copy(string, string)
+	Put(s string, v int)
+	Query(string) error
+	Zed(n int, _ int)
+	Zz(n int) (s string)
+}
+
 type Under interface {
 	Handle(req Request, _req Frame)
 	One(_reason string)
@@ -597,6 +605,8 @@ flagsets("naming2-emit", "adv/naming2", ["Emitter"])
 case("naming2-clock", "adv/naming2", ["Clock"])
 case("naming2-clock-emit", "adv/naming2", ["Clock", "Emitter"], stub=True)
 flagsets("naming2-under", "adv/naming2", ["Under"], modes=("",))
+flagsets("naming2-leak", "adv/naming2", ["Leak"], modes=("",))
+case("naming2-leak-emit", "adv/naming2", ["Emitter", "Leak", "Clock"])
 
 # two named types of one package in one type, the later one instantiated with a local type
 FILES["adv/paging/a.go"] = """package paging
@@ -729,6 +739,32 @@ flagsets("special-file", "adv/special", ["File"], modes=("",))
 flagsets("special-logger", "adv/special", ["Logger"], modes=("",))
 flagsets("special-private", "adv/special", ["Private"], modes=("",))
 
+
+# reset helpers next to methods that are spelled like them, in the same and in another interface of the run
+FILES["adv/resetspy/a.go"] = """package resetspy
+
+type FetchSpy interface {
+	FetchCount() int
+	ResetFetchCalls()
+}
+
+type Fetcher interface {
+	Fetch(id string) error
+	Close() error
+}
+
+type Meter interface {
+	Add(delta int)
+	Seek(offset int64, whence int) int64
+	SetLevel(l Level, force bool)
+	Label(name string)
+}
+
+type Level uint8
+"""
+for a in (["FetchSpy", "Fetcher"], ["Fetcher", "FetchSpy"], ["Meter"], ["Fetcher"]):
+    case("resetspy-" + "-".join(a), "adv/resetspy", a, resets=True)
+    case("resetspy-%s-plain" % "-".join(a), "adv/resetspy", a, stub=True)
 
 # D31: goimports, sibling files and a package name that cannot be guessed from the path
 FILES["adv/goimp/a.go"] = """package goimp
